@@ -864,6 +864,66 @@ theorem search_direction_unobservable (sc : Scripts) (cmds : List Cmd) (ob : Nat
     searchBack ob (runCmds sc { hooks := hk } cmds).1.hbs = idxOf ob (runCmds sc { hooks := hk } cmds).1.hbs :=
   searchBack_eq_idxOf ob _ (hbs_nodup sc cmds hk)
 
+/-! ### a third trace-level clause (no model, no oracle state in its statement) -/
+
+/-- every `ctx` event reports a clean context: this_player() is the object itself iff it is living, else 0, and the
+    evaluation cost is untouched -/
+def ctxClean : List Ev → Bool
+  | [] => true
+  | .ctx o lv tp full :: r => (tp == ctxGiver o lv) && full && ctxClean r
+  | _ :: r => ctxClean r
+
+theorem bad_of_step {j : JState} {e : Ev} {r : List Ev} (hacc : (r.foldl judge1 (judge1 j e)).bad = j.bad) :
+    (judge1 j e).bad = j.bad := by
+  rcases judge1_bad j e with h1 | ⟨v, h1⟩
+  · exact h1
+  · have := foldl_bad_length r (judge1 j e)
+    rw [hacc, h1] at this
+    simp at this
+    omega
+
+/-- every accepted trace has only clean contexts -/
+theorem accepted_ctx_clean : ∀ (tr : List Ev) (j : JState), (tr.foldl judge1 j).bad = j.bad → ctxClean tr = true := by
+  intro tr
+  induction tr with
+  | nil => intro _ _; rfl
+  | cons e r ih =>
+    intro j hacc
+    simp only [List.foldl_cons] at hacc
+    have hstep := bad_of_step hacc
+    have hrest := ih (judge1 j e) (by rw [hacc, hstep])
+    cases e with
+    | ctx o lv tp full =>
+      simp only [ctxClean, hrest, Bool.and_true]
+      simp only [judge1] at hstep
+      split at hstep
+      · exact absurd hstep (flagV_bad_ne rfl)
+      · split at hstep
+        · exact absurd hstep (flagV_bad_ne rfl)
+        · rename_i hc2
+          split at hstep
+          · exact absurd hstep (flagV_bad_ne rfl)
+          · rename_i hc3
+            cases full <;> simp_all
+    | _ => simpa [ctxClean] using hrest
+
+/-- for implementation traces as well: what `nvdrive C11 judge` answers `ok` on has only clean contexts -/
+theorem judge_ok_implies_ctx_clean (tr : List Ev) (h : judgeEv tr = []) : ctxClean tr = true := by
+  unfold judgeEv at h
+  have hb : (tr.foldl judge1 {}).bad = ({} : JState).bad := by simpa using h
+  exact accepted_ctx_clean tr {} hb
+
+/-- **faults stay local (context).**  In every run of the model every heart_beat is entered with this_player() = the object
+    itself iff it is living (else 0) and an untouched evaluation cost - whatever earlier heart_beats enabled, used up or
+    raised -/
+theorem context_clean_every_beat (sc : Scripts) (cmds : List Cmd) (hk : Nat → List Op := fun _ => []) :
+    ctxClean (events sc cmds hk) = true :=
+  judge_ok_implies_ctx_clean _ (model_satisfies_spec sc cmds hk)
+
+example : ctxClean [.tickBegin, .beat 2, .ctx 2 false (some 3) true] = false := by decide
+example : ctxClean [.tickBegin, .beat 2, .ctx 2 true (some 2) false] = false := by decide
+example : ctxClean [.tickBegin, .beat 2, .ctx 2 true (some 2) true, .beatEnd 2, .beat 3, .ctx 3 false none true] = true := by decide
+
 -- non-vacuity: the predicates reject what they should
 example : beatsOnce [] [.tickBegin, .beat 2, .beatEnd 2, .beat 2] = false := by decide
 example : calledOnlyOn [] [.shb 2 2 0 0, .tickBegin, .beat 2] = false := by decide
